@@ -79,7 +79,7 @@ impl<K, V, S> HashMap<K, V, S> {
     pub fn iter(&self) -> Iter<'_, K, V> {
         Iter {
             slots: &self.slots,
-            pos: 0,
+            done: [false; CAP],
         }
     }
 
@@ -180,24 +180,26 @@ impl<K: Eq, V, S> HashMap<K, V, S> {
 
 pub struct Iter<'a, K, V> {
     slots: &'a [Option<(K, V)>; CAP],
-    pos: usize,
+    /// visited flags instead of a position: slot i is marked as soon as it is looked at, whether or
+    /// not it is occupied, so `done[0]` is concretely true after the first call. With a symbolic
+    /// position CBMC re-explores (infeasibly) the already returned slots - and the whole loop
+    /// body of the caller with them - at every later call.
+    done: [bool; CAP],
 }
 
 impl<'a, K, V> Iterator for Iter<'a, K, V> {
     type Item = (&'a K, &'a V);
     fn next(&mut self) -> Option<Self::Item> {
-        // the loop index is concrete after unwinding; only the comparison with `pos` is symbolic
         let mut i = 0;
         while i < CAP {
-            if i >= self.pos {
+            if !self.done[i] {
+                self.done[i] = true;
                 if let Some((k, v)) = &self.slots[i] {
-                    self.pos = i + 1;
                     return Some((k, v));
                 }
             }
             i += 1;
         }
-        self.pos = CAP;
         None
     }
 }
